@@ -56,6 +56,15 @@ impl ProcessorRegistry {
         }
     }
 
+    /// Drops the tasks still queued on every initialized processor state.
+    pub(crate) fn abandon_all_queued_tasks(&self) {
+        for state in &self.states {
+            if let Some(s) = state.get() {
+                s.abandon_queued_tasks();
+            }
+        }
+    }
+
     #[cfg(test)]
     pub(crate) fn initialized_count(&self) -> usize {
         self.states.iter().filter(|s| s.get().is_some()).count()
